@@ -161,7 +161,7 @@ theorem embedded_generic_roundtrip (tm : Tmpl) (htm : 1 ≤ tm.y) (y m d nod : I
     obtain ⟨_, _, hne⟩ := numOut_last 4 (dateGetter y m d .yearOfEra)
     intro h
     exact hne (List.append_eq_nil_iff.mp (List.append_eq_nil_iff.mp h).1).1
-  exact segmented_roundtrip tm invariantCulture 3145728 embSegs y m d nod embedded_delimited hval hr hne
+  exact segmented_roundtrip tm invariantCulture 3145728 embSegs y m d nod (by decide) embedded_delimited hval hr hne
 
 /-- concrete values through the compiled model: the text written and read back; the template's fraction is kept -/
 example : parsePat (.datetime Tmpl.default) "2024-02-29T23:59:58".toList (.segmented invariantCulture 3145728 embSegs) =
